@@ -589,7 +589,13 @@ def execute(plan):
     finally:
         if plan.get('logging'):
             debug.setLogger(None)
-            del debug.scope._list[:]
+            for _ in range(10000):          # unwind whatever failed calls left on the scope stack
+                if not str(debug.scope):
+                    break
+                try:
+                    debug.scope.pop()
+                except Exception:
+                    break
     if globalstate.digest() != gs0:
         bad = _gs_moved(plan, gs0, 'shared-run', trace, ctr)
         if bad:
